@@ -54,6 +54,8 @@ structure Arg where
   col : Nat
   endLine : Nat
   endCol : Nat
+  /-- the parameter has a default value: pytest never treats it as a fixture request -/
+  hasDefault : Bool := false
   deriving DecidableEq, Repr, Inhabited
 
 structure Args where
